@@ -100,7 +100,31 @@ const nCallerKinds = 3
 
 var callerKindName = []string{"defn", "closure1", "closure2"}
 
+// value variants: what the argument standing in a LAZY formal's position evaluates to (after its
+// traced effect).  Memoisation, wrapping and forcing must not depend on the value: nil, false, 0,
+// the empty string, a symbol and a list are values like any other.
+type valVariant struct {
+	name   string
+	expr   func() *Node // nil = the traced number itself
+	render string
+}
+
+var valVariants = []valVariant{
+	{"int", nil, ""},
+	{"nil", func() *Node { return Nil() }, "N"},
+	{"int", nil, ""},
+	{"false", func() *Node { return Bool(false) }, "Bf"},
+	{"int", nil, ""},
+	{"emptystr", func() *Node { return Str("") }, "S"},
+	{"nil", func() *Node { return Nil() }, "N"},
+	{"symbol", func() *Node { return QuoteSym("sa") }, "Ysa"},
+	{"int", nil, ""},
+	{"list", func() *Node { return CallN("list", Int(1)) }, "(P I1 N)"},
+	{"zero", func() *Node { return Int(0) }, "I0"},
+}
+
 type GridCase struct {
+	Val     int // index into valVariants
 	Caller  int // caller kind
 	Split   int // > 0: the first Split forms are a separate, earlier evaluation
 	Shape   Shape
@@ -165,6 +189,19 @@ func srcDatum(n *Node) string {
 		return lst(items...)
 	case KSet:
 		return lst("Yset", "Y"+n.Name, srcDatum(n.Kids[0]))
+	case KNil:
+		return "N"
+	case KBool:
+		if n.B {
+			return "Bt"
+		}
+		return "Bf"
+	case KStr:
+		return fmt.Sprintf("S%x", []byte(n.S))
+	case KQuote:
+		if n.D != nil && !n.D.IsLst && !n.D.IsInt {
+			return lst("Yquote", "Y"+n.D.Sym)
+		}
 	}
 	return "?"
 }
@@ -326,8 +363,14 @@ func (gc *GridCase) Build() {
 		}
 		return Var("a")
 	}
+	vv := valVariants[gc.Val%len(valVariants)]
+	variantAt := func(i int) bool { return vv.expr != nil && i < k && sh.Lazy[i] && gc.Kinds[i] == KT }
 	for i, kd := range gc.Kinds {
-		args = append(args, argExpr(kd, base, int64(10+i)))
+		e := argExpr(kd, base, int64(10+i))
+		if variantAt(i) {
+			e.Kids = append(e.Kids, vv.expr()) // (begin (set cnt ..) (trace ..) VALUE)
+		}
+		args = append(args, e)
 	}
 	var callee *Node
 	var pre []*Node
@@ -349,10 +392,14 @@ func (gc *GridCase) Build() {
 	}
 	var call *Node
 	switch route {
-	case RApply:
-		call = CallN("apply", Var("f"), Arr(args...))
-	case RMap:
-		call = CallN("map", Var("f"), Arr(args...))
+	case RApply, RMap:
+		// the values are handed over in an array the caller keeps: it is returned next to the
+		// result so that what the route did to the caller's collection is observed
+		op := "apply"
+		if route == RMap {
+			op = "map"
+		}
+		call = Begin(Def("coll", Arr(args...)), CallN("list", CallN(op, Var("f"), Var("coll")), Var("coll")))
 	case RRec, RTail, RRedef:
 		call = Call(callee, append([]*Node{Int(2)}, args...)...)
 	default:
@@ -383,16 +430,17 @@ func (gc *GridCase) Build() {
 	forms = append(forms, fdef)
 	forms = append(forms, pre...)
 	forms = append(forms, callerForms...)
-	forms = append(forms, Def("res", CallN("caller", callerArgs...)))
-	nlazy := 0
-	for _, l := range sh.Lazy {
-		if l {
-			nlazy++
-		}
+	viaColl := route == RApply || route == RMap
+	var tailItems []*Node // observed after everything else: the caller's collection
+	if viaColl {
+		forms = append(forms, Def("both", CallN("caller", callerArgs...)), Def("res", CallN("first", Var("both"))))
+		tailItems = []*Node{CallN("first", CallN("rest", Var("both")))}
+	} else {
+		forms = append(forms, Def("res", CallN("caller", callerArgs...)))
 	}
 	switch {
 	case pat == PEscClos && route != RMap:
-		forms = append(forms, CallN("trace", Int(98)), CallN("list", CallN("res"), CallN("res"), Var("cnt")))
+		forms = append(forms, CallN("trace", Int(98)), CallN("list", append([]*Node{CallN("res"), CallN("res"), Var("cnt")}, tailItems...)...))
 	case pat == PEscArr && route != RMap:
 		var fs []*Node
 		for i := range sh.Lazy {
@@ -400,15 +448,16 @@ func (gc *GridCase) Build() {
 			fs = append(fs, CallN("force", CallN("aget", Var("res"), Int(int64(i)))))
 		}
 		fs = append(fs, Var("cnt"))
+		fs = append(fs, tailItems...)
 		forms = append(forms, CallN("trace", Int(98)), CallN("list", fs...))
 	default:
-		forms = append(forms, CallN("list", Var("res"), Var("cnt")))
+		forms = append(forms, CallN("list", append([]*Node{Var("res"), Var("cnt")}, tailItems...)...))
 	}
 	gc.P = &Program{Forms: forms, FailAt: failAt}
 	if route == RTyped {
 		gc.Typed = []string{"f"}
 	}
-	gc.Tags = []string{"stream:grid", "route:" + routeName[route], "pattern:" + patName[pat], "shape:" + sh.String(), "caller:" + callerKindName[gc.Caller]}
+	gc.Tags = []string{"stream:grid", "route:" + routeName[route], "pattern:" + patName[pat], "shape:" + sh.String(), "caller:" + callerKindName[gc.Caller], "argvalue:" + vv.name}
 	for _, kd := range gc.Kinds {
 		if kd != KT {
 			gc.Tags = append(gc.Tags, "argkind:"+kindName[kd])
@@ -417,7 +466,26 @@ func (gc *GridCase) Build() {
 	gc.Nontriv = true
 
 	// ---- oracle
-	mk := func(i int) string { return fmt.Sprintf("I%d", 110+i) } // marker of outer argument i
+	mk := func(i int) string { return fmt.Sprintf("I%d", 110+i) } // marker (traced effect) of outer argument i
+	val := func(i int) string { // value of outer argument i
+		if variantAt(i) {
+			return vv.render
+		}
+		return mk(i)
+	}
+	collVal := func() string {
+		var vs []string
+		for i := 0; i < nargs; i++ {
+			vs = append(vs, val(i))
+		}
+		return "[" + strings.Join(vs, " ") + "]"
+	}
+	withColl := func(items ...string) []string {
+		if viaColl {
+			return append(items, collVal())
+		}
+		return items
+	}
 	isLazyPos := func(i int) bool { return i < k && sh.Lazy[i] && route != RApply && route != RMap }
 	var cons []string
 	errPos, hasErr := hasErrKind(gc.Kinds)
@@ -546,32 +614,32 @@ func (gc *GridCase) Build() {
 	valueThunk := route == RApply
 	var vals []string
 	for i := 0; i < k; i++ {
-		vals = append(vals, actionVal(pat, sh.Lazy[i], mk(i), srcDatum(args[i]), valueThunk))
+		vals = append(vals, actionVal(pat, sh.Lazy[i], val(i), srcDatum(args[i]), valueThunk))
 	}
 	switch pat {
 	case PEscClos:
 		var vs []string
 		for i := 0; i < k; i++ {
-			vs = append(vs, mk(i))
+			vs = append(vs, val(i))
 		}
 		l := listVal(vs...)
-		cons = append(cons, "val:"+strings.ReplaceAll(listVal(l, l, fmt.Sprintf("I%d", cnt)), " ", "_"))
+		cons = append(cons, "val:"+strings.ReplaceAll(listVal(withColl(l, l, fmt.Sprintf("I%d", cnt))...), " ", "_"))
 	case PEscArr:
 		var vs []string
 		for i := 0; i < k; i++ {
-			vs = append(vs, mk(i), mk(i))
+			vs = append(vs, val(i), val(i))
 		}
 		vs = append(vs, fmt.Sprintf("I%d", cnt))
-		cons = append(cons, "val:"+strings.ReplaceAll(listVal(vs...), " ", "_"))
+		cons = append(cons, "val:"+strings.ReplaceAll(listVal(withColl(vs...)...), " ", "_"))
 	default:
 		if sh.Variadic {
 			var ex []string
 			for i := k; i < nargs; i++ {
-				ex = append(ex, mk(i))
+				ex = append(ex, val(i))
 			}
 			vals = append(vals, listVal(ex...))
 		}
-		cons = append(cons, "val:"+strings.ReplaceAll(listVal(listVal(vals...), fmt.Sprintf("I%d", cnt)), " ", "_"))
+		cons = append(cons, "val:"+strings.ReplaceAll(listVal(withColl(listVal(vals...), fmt.Sprintf("I%d", cnt))...), " ", "_"))
 	}
 	gc.Oracle = strings.Join(cons, ";")
 }
@@ -582,6 +650,7 @@ func EachGrid(full bool, emit func(*GridCase)) {
 	shapes := allShapes()
 	rot := 0
 	crot := 0
+	vrot := 0
 	for _, sh := range shapes {
 		k := len(sh.Lazy)
 		nargs := k
@@ -633,7 +702,8 @@ func EachGrid(full bool, emit func(*GridCase)) {
 						kinds = []int{0, 1, 2}
 					}
 					for _, ck := range kinds {
-						gc := &GridCase{Shape: sh, Route: route, Pat: pat, Kinds: nargsHere, Caller: ck}
+						gc := &GridCase{Shape: sh, Route: route, Pat: pat, Kinds: nargsHere, Caller: ck, Val: vrot}
+						vrot++
 						gc.Build()
 						emit(gc)
 					}
